@@ -10,6 +10,8 @@ class Ctx:
         t0 = time.time()
         self.prog = Program.load(force=force)
         self.extract_seconds = time.time() - t0
+        from .inline import inline_new_helpers
+        self.inline_report = inline_new_helpers(self.prog)
         self.cg = CallGraph(self.prog)
         self._locks = None
         self._og = {}
